@@ -85,11 +85,10 @@ fn cw20_code() -> Box<dyn Contract<Empty>> {
 }
 
 fn ltoken_code() -> Box<dyn Contract<Empty>> {
-    Box::new(ContractWrapper::new(
-        ltoken::execute,
-        ltoken::instantiate,
-        ltoken::query,
-    ))
+    Box::new(
+        ContractWrapper::new(ltoken::execute, ltoken::instantiate, ltoken::query)
+            .with_migrate(ltoken::migrate),
+    )
 }
 
 #[derive(Default)]
